@@ -286,7 +286,7 @@ def eval_failing(module_imports, cases_terms, checker, name, shard=150, timeout=
         src += ("Fixpoint failing_idx {A} (chk : A -> bool) (n : nat) (l : list A) : list nat :=\n"
                 "  match l with [] => [] | c :: t => if chk c then failing_idx chk (S n) t else n :: failing_idx chk (S n) t end.\n")
         src += "Definition bad := Eval vm_compute in failing_idx (%s) O cases.\nPrint bad.\n" % checker
-        nm = "%s_%d_s%d" % (name, os.getpid(), k)
+        nm = re.sub(r"[^A-Za-z0-9_]", "_", "%s_%d_s%d" % (name, os.getpid(), k))
         p = os.path.join(d, nm + ".v")
         with open(p, "w") as f:
             f.write(src)
@@ -549,6 +549,8 @@ def seq_differential(ctx, spec, exe, proofs_ok, tag=None, scale=1.0):
         part["evaluations"] = k
         return part
     obs_by_id = {o["id"]: o for o in obs}
+    if hasattr(spec, "post_run"):
+        spec.post_run(cases, obs_by_id)
     # direct oracle on the implementation
     oracle_fail = {}
     acc = {}
@@ -557,7 +559,7 @@ def seq_differential(ctx, spec, exe, proofs_ok, tag=None, scale=1.0):
         o = obs_by_id[c["id"]]
         spec.stats(c, o, acc)
         if spec.nontrivial(c, o):
-            distinct.add(canon_hash(c.get("ops", c)))
+            distinct.add(canon_hash([c.get("ops"), c.get("cfg")]))
         r = spec.oracle(c, o)
         if r:
             oracle_fail[c["id"]] = r
@@ -637,6 +639,8 @@ def seq_differential(ctx, spec, exe, proofs_ok, tag=None, scale=1.0):
             c["id"] = i
         eobs, eerr = run_runner(exe, spec.component, extra)
         if eobs and not eerr:
+            if hasattr(spec, "post_run"):
+                spec.post_run(extra, {o["id"]: o for o in eobs})
             for c, o in zip(extra, eobs):
                 r = spec.oracle(c, o)
                 if r:
